@@ -673,7 +673,7 @@ def check_accounting_is_granting(p, report, rule="R10.7"):
         L = c04.instance_loop(fnode)
         if L is None:
             continue
-        counter = L.target.elts[0].id
+        counter = c04.loop_counter(L)
         seeds = c04.seeds_of(fnode)
         gr = c04.grants(L, counter)
         if not gr:
@@ -849,7 +849,7 @@ def wellformed_indices(fnode, name):
         counter = None
         if isinstance(L.iter, ast.Call) and isinstance(L.iter.func, ast.Name) and L.iter.func.id == "enumerate" \
                 and isinstance(L.target, ast.Tuple) and isinstance(L.target.elts[0], ast.Name):
-            counter = L.target.elts[0].id
+            counter = c04.loop_counter(L)
         for a in apps:
             arg = a.value.args[0] if a.value.args else None
             if not (isinstance(arg, ast.Name) and arg.id == counter):
